@@ -9,6 +9,7 @@ package main
 import (
 	"bytes"
 	"encoding/json"
+	"errors"
 	"fmt"
 	"sort"
 	"strings"
@@ -156,8 +157,18 @@ func c06Client(s *sim.Server) *kube.Client {
 
 type c06Kube struct{ *kube.Client }
 
-func (c *c06Kube) IsReachable() error                               { return nil }
-func (c *c06Kube) GetWaiter(kube.WaitStrategy) (kube.Waiter, error) { return c06Waiter{}, nil }
+func (c *c06Kube) IsReachable() error { return nil }
+
+// GetWaiter answers like the real kube.Client.GetWaiter: only the three known strategies get
+// the stub waiter; anything else - in particular the empty strategy of an action that forgot to
+// set one - is "unknown wait strategy".
+func (c *c06Kube) GetWaiter(ws kube.WaitStrategy) (kube.Waiter, error) {
+	switch ws {
+	case kube.StatusWatcherStrategy, kube.LegacyStrategy, kube.HookOnlyStrategy:
+		return c06Waiter{}, nil
+	}
+	return nil, errors.New("unknown wait strategy")
+}
 
 type c06Waiter struct{}
 
@@ -274,7 +285,7 @@ func c06RunWide(r *eng.Runner, op *eng.Op, w *c06Wide) (so eng.StepObs) {
 			}
 		}()
 		f := op.Flags
-		ws := kube.WaitStrategy("")
+		ws := kube.HookOnlyStrategy // the CLI default of --wait
 		if w.Wait {
 			ws = kube.StatusWatcherStrategy
 		}
